@@ -151,12 +151,14 @@ def Out.isOk : Out → Bool
 
 /-! ### Writes -/
 
-/-- which handler class opens an upload: by content type, or by extension when
-    `content_type is None` -/
+/-- which handler class opens an upload (`store.open_for_import`): the one the item will be read
+    back with — by extension when the extension selects a specific type (whatever content type
+    the client declared), otherwise by the declared content type -/
 def handlerFor (ct : Option String) (name : String) : HKind :=
-  match ct with
-  | some c => hkOfCtype c
-  | none => hkOfName name
+  if hkOfName name ≠ .plain then hkOfName name
+  else match ct with
+    | some c => hkOfCtype c
+    | none => .plain
 
 /-- the UID part of `_check_duplicate`, on the refreshed cache -/
 def dupError (c : Cache) (uid : Option String) (name : String) : Option Out :=
